@@ -1,4 +1,206 @@
-From Coq Require Import List ZArith QArith Bool Lia.
-From PLV Require Import Disc.EqualModel Disc.RebindModel.
+(* Lemmas about Disc/RebindModel.v (data leaves, flatten/unflatten, bind_new_parameters). *)
+From Coq Require Import List ZArith QArith Bool Lia Arith.
+From PLV Require Import Disc.EqualModel Disc.EqualProofs Disc.RebindModel.
 Import ListNotations.
-Lemma placeholder6_true : true = true. Proof. reflexivity. Qed.
+
+Definition shape (l : list leaf) : list nat := map (@length Q) l.
+Definition oparams (o : Z * list Z * op) : list leaf := params_of (snd o).
+Definition oerase (o : Z * list Z * op) : Z * list Z * op := (fst o, erase (snd o)).
+Definition bfun : op -> list leaf -> option (op * list leaf) := fun x qs => bind_aux x qs.
+
+Lemma same_len_true : forall p q, length p = length q -> same_len p q = true.
+Proof. intros. unfold same_len. rewrite H. apply Nat.eqb_refl. Qed.
+
+Lemma zero_leaf_length : forall p, length (zero_leaf p) = length p.
+Proof. intros. unfold zero_leaf. apply map_length. Qed.
+
+Lemma shape_zero : forall ps, shape (map zero_leaf ps) = shape ps.
+Proof. intros. unfold shape. rewrite map_map. apply map_ext. intros. apply zero_leaf_length. Qed.
+
+(* ------------------------------------------------------------------ take_leaves *)
+Lemma take_leaves_app : forall old pre rest, shape pre = shape old -> take_leaves old (pre ++ rest) = Some (pre, rest).
+Proof.
+  induction old; destruct pre; simpl; intros; try discriminate; auto.
+  injection H; intros Hs Hl. rewrite same_len_true by auto. rewrite IHold by auto. reflexivity.
+Qed.
+
+Lemma take_leaves_spec : forall old ps t rest, take_leaves old ps = Some (t, rest) -> ps = t ++ rest /\ shape t = shape old.
+Proof.
+  induction old; simpl; intros.
+  - inversion H; subst. auto.
+  - destruct ps; try discriminate. destruct (same_len a l) eqn:E; try discriminate.
+    destruct (take_leaves old ps) as [[t' r']|] eqn:T; try discriminate. inversion H; subst.
+    apply IHold in T. destruct T as [-> S]. split; auto. simpl. f_equal; auto.
+    unfold same_len in E. apply Nat.eqb_eq in E. auto.
+Qed.
+
+(* ------------------------------------------------------------------ binding the own parameters is the identity *)
+Lemma bind_list_id : forall ops rest,
+  Forall (fun o => forall rest, bind_aux (snd o) (params_of (snd o) ++ rest) = Some (snd o, rest)) ops ->
+  bind_list bfun ops (flat_map oparams ops ++ rest) = Some (ops, rest).
+Proof.
+  induction ops; simpl; intros; auto. inversion H; subst.
+  unfold oparams at 1. rewrite <- app_assoc. unfold bfun at 1. rewrite H2. rewrite IHops by auto.
+  destruct a as [[k w] x]. reflexivity.
+Qed.
+
+Lemma bind_aux_id : forall a rest, bind_aux a (params_of a ++ rest) = Some (a, rest).
+Proof.
+  induction a using op_ind2; intros; cbn [bind_aux params_of].
+  - rewrite take_leaves_app by reflexivity. reflexivity.
+  - rewrite IHa. reflexivity.
+  - rewrite IHa. reflexivity.
+  - rewrite IHa. reflexivity.
+  - simpl. rewrite IHa. reflexivity.
+  - simpl. rewrite IHa. reflexivity.
+  - change (bind_list (fun x qs => bind_aux x qs)) with (bind_list bfun).
+    change (flat_map (fun o : Z * list Z * op => params_of (snd o)) ops) with (flat_map oparams ops).
+    rewrite bind_list_id by auto. reflexivity.
+Qed.
+
+Lemma bind_list_erase : forall ops rest,
+  Forall (fun o => forall rest, bind_aux (erase (snd o)) (params_of (snd o) ++ rest) = Some (snd o, rest)) ops ->
+  bind_list bfun (map oerase ops) (flat_map oparams ops ++ rest) = Some (ops, rest).
+Proof.
+  induction ops; simpl; intros; auto. inversion H; subst.
+  unfold oparams at 1. rewrite <- app_assoc. unfold bfun at 1. rewrite H2. rewrite IHops by auto.
+  destruct a as [[k w] x]. reflexivity.
+Qed.
+
+Lemma bind_aux_erase : forall a rest, bind_aux (erase a) (params_of a ++ rest) = Some (a, rest).
+Proof.
+  induction a using op_ind2; intros; cbn [bind_aux params_of erase].
+  - rewrite take_leaves_app by (symmetry; apply shape_zero). reflexivity.
+  - rewrite IHa. reflexivity.
+  - rewrite IHa. reflexivity.
+  - rewrite IHa. reflexivity.
+  - simpl. rewrite IHa. reflexivity.
+  - simpl. rewrite IHa. reflexivity.
+  - change (bind_list (fun x qs => bind_aux x qs)) with (bind_list bfun).
+    change (flat_map (fun o : Z * list Z * op => params_of (snd o)) ops) with (flat_map oparams ops).
+    change (map (fun o : Z * list Z * op => (fst o, erase (snd o))) ops) with (map oerase ops).
+    rewrite bind_list_erase by auto. reflexivity.
+Qed.
+
+Lemma bind_same : forall a, bind a (params_of a) = Some a.
+Proof. intros. unfold bind. rewrite <- (app_nil_r (params_of a)). rewrite bind_aux_id. reflexivity. Qed.
+
+Lemma unflatten_flatten_op : forall a, unflatten (flatten a) = Some a.
+Proof.
+  intros. unfold unflatten, flatten, bind. simpl. rewrite <- (app_nil_r (params_of a)).
+  rewrite bind_aux_erase. reflexivity.
+Qed.
+
+Lemma round_trip_item : forall a, round_trip_model a = Some a.
+Proof.
+  intros [x | [k o w e u v]]; simpl.
+  - rewrite unflatten_flatten_op. reflexivity.
+  - destruct o as [a|]; simpl.
+    + rewrite bind_aux_erase. destruct e as [x|]; simpl; auto.
+      rewrite same_len_true by apply zero_leaf_length. reflexivity.
+    + destruct e as [x|]; simpl; auto. rewrite same_len_true by apply zero_leaf_length. reflexivity.
+Qed.
+
+(* ------------------------------------------------------------------ bind replaces exactly the leaves *)
+Lemma bind_list_sound : forall ops,
+  Forall (fun o => forall ps a' rest, bind_aux (snd o) ps = Some (a', rest) ->
+                   ps = params_of a' ++ rest /\ erase a' = erase (snd o)) ops ->
+  forall ps ops' rest, bind_list bfun ops ps = Some (ops', rest) ->
+  ps = flat_map oparams ops' ++ rest /\ map oerase ops' = map oerase ops /\ map fst ops' = map fst ops.
+Proof.
+  induction ops; simpl; intros.
+  - inversion H0; subst. auto.
+  - inversion H; subst. unfold bfun at 1 in H0.
+    destruct (bind_aux (snd a) ps) as [[x' ps']|] eqn:B; try discriminate.
+    destruct (bind_list bfun ops ps') as [[r' rest']|] eqn:L; try discriminate.
+    inversion H0; subst. apply H3 in B. destruct B as [-> Ee].
+    apply (IHops H4) in L. destruct L as [-> [Em Ef]]. simpl. unfold oparams at 1. simpl.
+    rewrite app_assoc. split; auto. split; f_equal; auto. unfold oerase. simpl. f_equal. auto.
+Qed.
+
+Lemma bind_aux_sound : forall a ps a' rest, bind_aux a ps = Some (a', rest) ->
+  ps = params_of a' ++ rest /\ erase a' = erase a.
+Proof.
+  induction a using op_ind2; intros qs a' rest B; cbn [bind_aux] in B.
+  - destruct (take_leaves ps qs) as [[t r]|] eqn:T; try discriminate. inversion B; subst.
+    apply take_leaves_spec in T. destruct T as [-> S]. split; auto. simpl. f_equal.
+    clear - S. revert ps S. induction t; destruct ps; simpl; intros; try discriminate; auto.
+    injection S; intros. f_equal; auto. unfold zero_leaf. clear - H0.
+    revert l H0. induction a; destruct l; simpl; intros; try discriminate; auto. f_equal. auto.
+  - destruct (bind_aux a qs) as [[b' r]|] eqn:E; try discriminate. inversion B; subst.
+    apply IHa in E. destruct E as [-> Ee]. simpl. rewrite Ee. auto.
+  - destruct (bind_aux a qs) as [[b' r]|] eqn:E; try discriminate. inversion B; subst.
+    apply IHa in E. destruct E as [-> Ee]. simpl. rewrite Ee. auto.
+  - destruct (bind_aux a qs) as [[b' r]|] eqn:E; try discriminate. inversion B; subst.
+    apply IHa in E. destruct E as [-> Ee]. simpl. rewrite Ee. auto.
+  - destruct qs as [|[|x [|]] qs']; simpl in B; try discriminate.
+    destruct (bind_aux a qs') as [[b' r]|] eqn:E; try discriminate. inversion B; subst.
+    apply IHa in E. destruct E as [-> Ee]. simpl. rewrite Ee. auto.
+  - destruct qs as [|[|x [|]] qs']; simpl in B; try discriminate.
+    destruct (bind_aux a qs') as [[b' r]|] eqn:E; try discriminate. inversion B; subst.
+    apply IHa in E. destruct E as [-> Ee]. simpl. rewrite Ee. auto.
+  - change (bind_list (fun x qs => bind_aux x qs)) with (bind_list bfun) in B.
+    destruct (bind_list bfun ops qs) as [[ops' r]|] eqn:L; try discriminate. inversion B; subst.
+    apply (bind_list_sound ops H) in L. destruct L as [-> [Em Ef]]. split; auto.
+    simpl. f_equal. exact Em.
+Qed.
+
+Lemma bind_sound : forall a ps a', bind a ps = Some a' -> params_of a' = ps /\ erase a' = erase a.
+Proof.
+  intros a ps a' B. unfold bind in B. destruct (bind_aux a ps) as [[x r]|] eqn:E; try discriminate.
+  destruct r; try discriminate. inversion B; subst. apply bind_aux_sound in E. destruct E as [-> Ee].
+  rewrite app_nil_r. auto.
+Qed.
+
+(* ------------------------------------------------------------------ the shape guard *)
+Lemma shape_app : forall a b, shape (a ++ b) = shape a ++ shape b.
+Proof. intros. apply map_app. Qed.
+
+Lemma shape_params_erase : forall a, shape (params_of (erase a)) = shape (params_of a).
+Proof.
+  induction a using op_ind2; simpl; auto.
+  - apply shape_zero.
+  - unfold shape in *. simpl. f_equal. auto.
+  - unfold shape in *. simpl. f_equal. auto.
+  - induction ops; simpl; auto. inversion H; subst. rewrite !shape_app. f_equal; auto.
+Qed.
+
+Lemma bind_list_complete : forall ops,
+  Forall (fun o => forall pre rest, shape pre = shape (params_of (snd o)) ->
+                   exists a', bind_aux (snd o) (pre ++ rest) = Some (a', rest)) ops ->
+  forall pre rest, shape pre = shape (flat_map oparams ops) ->
+  exists ops', bind_list bfun ops (pre ++ rest) = Some (ops', rest).
+Proof.
+  induction ops; simpl; intros.
+  - destruct pre; try discriminate. simpl. eauto.
+  - inversion H; subst. rewrite shape_app in H0. unfold shape in H0 at 1. apply map_eq_app in H0.
+    destruct H0 as [p1 [p2 [-> [S1 S2]]]]. rewrite <- app_assoc. unfold bfun at 1. cbv beta.
+    unfold leaf in *. destruct (H3 p1 (p2 ++ rest) S1) as [a' ->].
+    destruct (IHops H4 p2 rest S2) as [r' ->]. eauto.
+Qed.
+
+Lemma bind_aux_complete : forall a pre rest, shape pre = shape (params_of a) ->
+  exists a', bind_aux a (pre ++ rest) = Some (a', rest).
+Proof.
+  induction a using op_ind2; intros pre rest S; cbn [bind_aux]; cbn [params_of] in S.
+  - rewrite take_leaves_app by auto. eauto.
+  - destruct (IHa pre rest S) as [b' ->]. eauto.
+  - destruct (IHa pre rest S) as [b' ->]. eauto.
+  - destruct (IHa pre rest S) as [b' ->]. eauto.
+  - destruct pre as [|[|x [|]] pre']; simpl in S; try discriminate. injection S; intro S'.
+    simpl. destruct (IHa pre' rest S') as [b' ->]. eauto.
+  - destruct pre as [|[|x [|]] pre']; simpl in S; try discriminate. injection S; intro S'.
+    simpl. destruct (IHa pre' rest S') as [b' ->]. eauto.
+  - change (bind_list (fun x qs => bind_aux x qs)) with (bind_list bfun).
+    destruct (bind_list_complete ops H pre rest S) as [ops' ->]. eauto.
+Qed.
+
+Lemma bind_guard : forall a ps, bind a ps <> None <-> shape ps = shape (params_of a).
+Proof.
+  intros. split.
+  - intro N. destruct (bind a ps) as [a'|] eqn:B; try congruence.
+    apply bind_sound in B. destruct B as [<- E].
+    rewrite <- (shape_params_erase a'), E. apply shape_params_erase.
+  - intro S. destruct (bind_aux_complete a ps [] S) as [a' B]. unfold bind.
+    rewrite app_nil_r in B. rewrite B. discriminate.
+Qed.
